@@ -163,6 +163,29 @@ sink_eps!(
     (mp_r, h_mp, PUT, "/sink/mp/r", MultipartBody),
 );
 
+pub const V_LIMIT_SMALL: usize = 50;
+
+// One path served by two endpoints in adjacent version ranges whose limits
+// differ: the limit that applies is the one of the version that was routed
+// to.  Registered in this order (v1 first).
+sink_eps!(
+    (raw_v1, h_raw, PUT, "/sink/raw/v", UntypedBody, operation_id = "raw_v1", versions = .."2.0.0", request_body_max_bytes = 300),
+    (raw_v2, h_raw, PUT, "/sink/raw/v", UntypedBody, operation_id = "raw_v2", versions = "2.0.0"..),
+    (stream_v1, h_stream, PUT, "/sink/stream/v", StreamingBody, operation_id = "stream_v1", versions = .."2.0.0"),
+    (stream_v2, h_stream, PUT, "/sink/stream/v", StreamingBody, operation_id = "stream_v2", versions = "2.0.0".., request_body_max_bytes = 300),
+    (json_v1, h_json, PUT, "/sink/json/v", TypedBody<SinkDoc>, operation_id = "json_v1", versions = .."2.0.0", request_body_max_bytes = 300),
+    (json_v2, h_json, PUT, "/sink/json/v", TypedBody<SinkDoc>, operation_id = "json_v2", versions = "2.0.0".., request_body_max_bytes = V_LIMIT_SMALL),
+);
+
+pub fn register_versioned(api: &mut ApiDescription<SimCtx>) {
+    api.register(raw_v1).unwrap();
+    api.register(raw_v2).unwrap();
+    api.register(stream_v1).unwrap();
+    api.register(stream_v2).unwrap();
+    api.register(json_v1).unwrap();
+    api.register(json_v2).unwrap();
+}
+
 pub fn register(api: &mut ApiDescription<SimCtx>, rt_override: Option<usize>) {
     api.register(json_d).unwrap();
     api.register(json_m).unwrap();
